@@ -237,3 +237,11 @@ _t_shared_structs = tasks
 def tasks(tier):
     from specs.C08 import shared_struct_tasks
     return _t_shared_structs(tier) + shared_struct_tasks('C11.g.', ['LendingAccountStartFlashloan', 'LendingAccountEndFlashloan'])
+
+
+# ---------------------------------------------------------------- shared with C04.c: what the END of a flash loan relies on - the health decision itself. `end_flashloan` is the one caller that
+# passes NO health cache (`&mut None`), so "unhealthy => Err" must not depend on a cache being present (seed C11-6 moved the rejection inside `if let Some(cache)`)
+_t_c11h = tasks
+def tasks(tier):
+    from specs import C04
+    return _t_c11h(tier) + [('health_decision', renamed(C04.t_health_decision, 'C04.c', 'C11.h'))]
